@@ -299,7 +299,7 @@ def make_subscriber_cls():
             t = w.transfers[self.tidx]
             coord = future._coordinator
             info = {'done': future.done(),
-                    'event_set': coord._done_event.is_set(),
+                    'event_set': getattr(getattr(coord, '_done_event', None), 'is_set', lambda: None)(),
                     'status': coord.status,
                     'exception': coord._exception,
                     'open_requests': w.open_requests_of(self.tidx),
